@@ -207,6 +207,96 @@ type agg struct {
 	perConfig map[string]int64
 	notes     map[string]bool
 	dir       string
+	first     map[string]caseDesc // first case per violation signature (for the confirmation pass)
+	known     []fw.Finding
+}
+
+func (a *agg) remember(sig string, d caseDesc) {
+	if _, ok := a.first[sig]; !ok {
+		a.first[sig] = d
+	}
+}
+
+// isKnown mirrors fw's matching of open findings (exact signature or prefix pattern ending in '*').
+func (a *agg) isKnown(sig string) bool {
+	for _, f := range a.known {
+		if f.Property != "C02" || f.Status != "open" {
+			continue
+		}
+		if f.Signature == sig || (strings.HasSuffix(f.Signature, "*") && strings.HasPrefix(sig, strings.TrimSuffix(f.Signature, "*"))) {
+			return true
+		}
+	}
+	return false
+}
+
+func loadFindings() []fw.Finding {
+	var out []fw.Finding
+	for _, p := range []string{filepath.Join(fw.Root, "known_findings.json"), filepath.Join(fw.Root, "checks", "c02", "findings.json")} {
+		b, err := os.ReadFile(p)
+		if err != nil {
+			continue
+		}
+		var fs []fw.Finding
+		if json.Unmarshal(b, &fs) == nil {
+			out = append(out, fs...)
+		}
+	}
+	return out
+}
+
+// runSingle executes exactly one case in a fresh supervised child and reports whether it fails.
+func (a *agg) runSingle(c caseDesc, tag string) (failed bool, what string) {
+	b := batch{Engine: c.Engine, Kind: memKindByName(c.Mem), Pages: c.Pages, Op: c.Op, Offs: []uint64{c.Off}, Level: 0, Only: &c, Move: c.Move}
+	path := filepath.Join(a.dir, "items-"+tag+".json")
+	if err := os.WriteFile(path, []byte(mustJSON([]item{{Batch: b}})), 0o600); err != nil {
+		fw.Fatalf("items file: %v", err)
+	}
+	fw.Supervise(fw.SupOpts{N: 1, Workers: 1, CaseTimeout: 15 * time.Minute, Mode: tag,
+		Env: []string{"C02_ITEMS=" + path, "C02_DIR=" + a.dir, "C02_TOUCH_EVERY=1"}},
+		func(i int, res string, crash *fw.Crash) {
+			if crash != nil {
+				failed, what = true, fmt.Sprintf("process died (%s): %s", crash.Kind, fw.FirstLines(crash.Stderr, 4))
+				return
+			}
+			var r itemResult
+			json.Unmarshal([]byte(res), &r)
+			what = fmt.Sprintf("cases=%d outcomes=%v", r.Cases, r.Out)
+			if r.Cases == 0 {
+				failed, what = true, "the case is not part of the enumeration"
+			}
+			for _, v := range r.Viol {
+				failed = true
+				what += fmt.Sprintf("\n  VIOLATION %s: %s", v.Sig, v.What)
+			}
+		})
+	return
+}
+
+// confirm re-runs the first case of every unknown violation signature in a fresh process. A failure that does not
+// reproduce is a harness problem, never a verdict (DESIGN 1.6).
+func (a *agg) confirm() {
+	if a.run.Violations() == 0 {
+		return
+	}
+	var sigs []string
+	for s := range a.first {
+		if !a.isKnown(s) && !strings.Contains(s, ":stray-touch:") && !strings.Contains(s, ":memory-mismatch-batch:") {
+			sigs = append(sigs, s)
+		}
+	}
+	sort.Strings(sigs)
+	if len(sigs) > 12 {
+		sigs = sigs[:12]
+	}
+	for k, s := range sigs {
+		failed, what := a.runSingle(a.first[s], fmt.Sprintf("confirm%d", k))
+		if !failed {
+			os.RemoveAll(a.dir)
+			fw.Fatalf("violation %s (%s) did not reproduce in a fresh process: %s", s, a.first[s], what)
+		}
+		fmt.Printf("CONFIRMED in a fresh process: %s\n", s)
+	}
 }
 
 func (a *agg) handle(pool string, items []item, workers int, i int, res string, crash *fw.Crash) {
@@ -236,12 +326,11 @@ func (a *agg) handle(pool string, items []item, workers int, i int, res string, 
 			fw.Fatalf("child crashed on item %d outside any case (%s): %s", i, mustJSON(b), crash.Stderr)
 		}
 		d := b.desc(cases[seq])
+		// a fault in generated code surfaces in several shapes (SIGSEGV report, "unexpected fault address", a
+		// corrupted-stack abort of the Go runtime): all of them are "the process died in this guest call".
 		kind := "fault"
-		switch {
-		case crash.Kind == "timeout":
+		if crash.Kind == "timeout" {
 			kind = "hang"
-		case !strings.Contains(crash.Stderr, "SIGSEGV") && !strings.Contains(crash.Stderr, "SIGBUS"):
-			kind = "crash"
 		}
 		if !inCall {
 			kind += "-after-case"
@@ -250,6 +339,7 @@ func (a *agg) handle(pool string, items []item, workers int, i int, res string, 
 		a.cases++
 		a.perConfig[key]++
 		a.outcomes.Inc("process-" + kind)
+		a.remember(faultSig(kind, d), d)
 		a.run.Violation(faultSig(kind, d), fmt.Sprintf("%s: the process died (%s) while executing this case: %s", d, kind, fw.FirstLines(crash.Stderr, 3)), d)
 		if seq+1 < len(cases) {
 			a.resumes = append(a.resumes, item{Batch: *b, From: seq + 1})
@@ -280,6 +370,7 @@ func (a *agg) handle(pool string, items []item, workers int, i int, res string, 
 	}
 	detailed := map[string]int64{}
 	for _, v := range r.Viol {
+		a.remember(v.Sig, v.Case)
 		a.run.Violation(v.Sig, v.What, v.Case)
 		detailed[v.Sig]++
 	}
@@ -332,7 +423,8 @@ func main() {
 		fw.Fatalf("tempdir: %v", err)
 	}
 	defer os.RemoveAll(dir)
-	a := &agg{run: run, outcomes: fw.NewCounter(), samples: fw.NewSampler(12), perConfig: map[string]int64{}, notes: map[string]bool{}, dir: dir}
+	a := &agg{run: run, outcomes: fw.NewCounter(), samples: fw.NewSampler(12), perConfig: map[string]int64{}, notes: map[string]bool{}, dir: dir,
+		first: map[string]caseDesc{}, known: loadFindings()}
 
 	if len(os.Args) > 2 && os.Args[1] == "replay" {
 		replay(a, os.Args[2])
@@ -361,6 +453,7 @@ func main() {
 	go func() { defer wg.Done(); supervisePool(a, "huge", huge, 4, touchEvery) }()
 	go func() { defer wg.Done(); supervisePool(a, "small", small, nSmall, touchEvery) }()
 	wg.Wait()
+	a.confirm()
 
 	bounds := map[string]any{
 		"operations": len(allOps), "static_offsets": offsetAlphabet, "placements": len(placements), "base_forms": int(nForms),
@@ -403,35 +496,12 @@ func replay(a *agg, file string) {
 		fw.Fatalf("replay: %s has no replayable case (%v)", file, err)
 	}
 	c := doc.Replay
-	b := batch{Engine: c.Engine, Kind: memKindByName(c.Mem), Pages: c.Pages, Op: c.Op, Offs: []uint64{c.Off}, Level: 0, Only: c, Move: c.Move}
-	if opByName(c.Op) == nil || b.Kind < 0 {
-		fw.Fatalf("replay: unknown op or memory kind in %s", file)
+	if opByName(c.Op) == nil || memKindByName(c.Mem) < 0 || placementByName(c.Placement) == nil || formByName(c.Form) < 0 {
+		fw.Fatalf("replay: unknown op, memory kind, placement or form in %s", file)
 	}
-	items := []item{{Batch: b}}
-	path := filepath.Join(a.dir, "items-replay.json")
-	os.WriteFile(path, []byte(mustJSON(items)), 0o600)
-	fmt.Printf("replaying %s\n  recorded: %s: %s\n", c, doc.Signature, doc.What)
-	failed := false
-	fw.Supervise(fw.SupOpts{N: 1, Workers: 1, CaseTimeout: 15 * time.Minute, Mode: "replay",
-		Env: []string{"C02_ITEMS=" + path, "C02_DIR=" + a.dir, "C02_TOUCH_EVERY=1"}},
-		func(i int, res string, crash *fw.Crash) {
-			if crash != nil {
-				failed = true
-				fmt.Printf("  now: process died (%s): %s\n", crash.Kind, fw.FirstLines(crash.Stderr, 4))
-				return
-			}
-			var r itemResult
-			json.Unmarshal([]byte(res), &r)
-			fmt.Printf("  now: cases=%d outcomes=%v\n", r.Cases, r.Out)
-			if r.Cases == 0 {
-				fmt.Printf("  the recorded case is not part of the enumeration any more\n")
-				failed = true
-			}
-			for _, v := range r.Viol {
-				failed = true
-				fmt.Printf("  VIOLATION %s: %s\n", v.Sig, v.What)
-			}
-		})
+	fmt.Printf("replaying %s\n  recorded: %s: %s\n", *c, doc.Signature, doc.What)
+	failed, what := a.runSingle(*c, "replay")
+	fmt.Printf("  now: %s\n", what)
 	os.RemoveAll(a.dir)
 	if failed {
 		os.Exit(1)
